@@ -9,7 +9,7 @@ def sh(cmd, **kw): return subprocess.run(cmd, shell=True, capture_output=True, t
 def do_import(src):
     for d in sorted(glob.glob(src + '/c*/[a-z]')):
         sid = os.path.basename(os.path.dirname(d)) + os.path.basename(d)
-        log = open(d + '/confirm.log').read() if os.path.exists(d + '/confirm.log') else ''
+        log = open(d + '/confirm.log', errors='replace').read() if os.path.exists(d + '/confirm.log') else ''
         if not log.strip().endswith('CONFIRMED'):
             print('skip (not confirmed):', sid); continue
         out = f'{V}/seeded/{sid}'; os.makedirs(out, exist_ok=True)
